@@ -480,6 +480,14 @@ var scripts = [][]string{
 		"stake b 0 0 1000000000000", "stake b 1 1 1000000000000",
 		"newa 2 1 1 1048577 1000000000 0,1", "newa 2 1 1 1048577 1000000000 0,1",
 		"tick 2591999 1 1", "fin 0 c2", "tick 1 1 1", "fin 0 c1", "fin 0 c2", "cancel 1 c2", "cancel 1 c2", "rpl 2 1000000000", "rpu 2", "rpu 2"},
+	// first write marker of a blobber at exactly the expiration second, another blobber holding challenge value:
+	// finalize fails for ever (0/0 in challengeRewardOnFinalization, models.go 617-631) — outside the four properties'
+	// texts; kept as a boundary case: the model takes the failure as observed
+	{"init fx-nan-at-expiry 1",
+		"addb 0 107374182400 1000000000 100000000 0 100", "addb 1 107374182400 1000000000 100000000 1 100",
+		"stake b 0 0 1000000000000", "stake b 1 1 1000000000000",
+		"newa 3 1 1 1073741824 100000000000 0,1", "commit 0 1 104857600", "tick 2592000 2 1", "commit 0 0 104857600",
+		"tick 10 2 1", "fin 0 c3", "fin 0 b0", "cancel 0 c3"},
 	// malformed stream: both sides must answer bad-op and keep their state
 	{"init fx-malformed 1", "addb 0 107374182400 1000000000 100000000 0 100", "frobnicate 1 2", "commit 0", "addb 9 1 1 1 0 0",
 		"addb x 1 1 1 0 0", "stake q 0 0 5", "newa 0 1 1 1048576 5 0,7", "upd 0 z3 0 0 0 - -", "fin 0", "fin 0 c9", "tick 1 1 2",
